@@ -193,7 +193,9 @@ class C12(core.Check):
                 for run, skip in text_runs(p.getRoot()):
                     if skip:
                         continue
-                    if run[:1] in '\r\n' or run[-1:] in '\r\n' or '\t' in run:
+                    # comments are kept verbatim (C11) and are not text: look at the text around them
+                    run = re.sub(r'<!--.*?-->', '', run, flags=re.S)
+                    if run and (run[0] in '\r\n' or run[-1] in '\r\n' or '\t' in run):
                         return 'mini output of %r has a text run %r with a line break at its edge or a tab' % (html, run)
             sc = Scan(out)
             for k, name, line, col, depth, inpre, raw in sc.events:
